@@ -184,7 +184,20 @@ def shallowSvc (k : Keys) (s : SvcState) : SvcState :=
   let w := memoTbl k.names s.watching
   let r := memoTbl k.svcs s.routes
   let c := memoTbl k.names s.svcRoutes
-  { watching := ofTbl w s.watching, routes := ofTbl r s.routes, svcRoutes := ofTbl c s.svcRoutes }
+  let q := memoTbl k.svcs s.waiting
+  { watching := ofTbl w s.watching, routes := ofTbl r s.routes, svcRoutes := ofTbl c s.svcRoutes,
+    waiting := ofTbl q s.waiting }
+
+/-- the specification's claim queues, boxed and tabulated like the rest -/
+structure ClaimsBox where
+  f : Claims
+
+def shallowClaims (k : Keys) (c : Claims) : ClaimsBox :=
+  let t := memoTbl k.svcs c
+  { f := ofTbl t c }
+
+theorem shallowClaims_eq (k : Keys) (c : Claims) : (shallowClaims k c).f = c := by
+  simp [shallowClaims, ofTbl_memoTbl]
 
 def shallowPat (k : Keys) (s : PatState) : PatState :=
   let w := memoTbl k.names s.watching
@@ -216,8 +229,7 @@ structure JState where
   pat : PatState := PatState.init
   svc : SvcState := SvcState.init
   lat : Latest := Latest.init
-  shared : List SvcName := []          -- services that two live targets listed at once at some point so far
-  prevOwners : List (Option Name) := []  -- implementation's owner per service probe after the previous step
+  claims : Claims := fun _ => []        -- the specification's claim queue per service
 
 /-- service names the service probes talk about (one per probe, in the order G H W X; `none` = malformed) -/
 def probeSvcs (pr : Probes) : List (Option SvcName) :=
@@ -227,13 +239,11 @@ def probeSvcs (pr : Probes) : List (Option SvcName) :=
     | some p => (specParse p).map (·.1) | none => none) ++
   pr.x.map (fun s => (specParse s).map (·.1))
 
-/-- owners a specification-conforming router may report for `svc` now -/
-def acceptableOwners (st : JState) (names : List Name) (svc : SvcName) : List (Option SvcRoute) :=
-  let ls := listers st.lat names svc
-  if st.shared.contains svc then none :: ls.map some
-  else match ls with
-    | [] => [none]
-    | ls => ls.map some
+/-- the owner the specification demands: the first claimant, with its latest description -/
+def specOwnerOf (lat : Latest) (c : Claims) (svc : SvcName) : Option SvcRoute :=
+  match c svc with
+  | [] => none
+  | n :: _ => specSvcRoute lat n svc
 
 def tokOwner (tok : String) : Option (Option Name) :=
   -- `F.<namehex>.…` ⇒ owner; `S12…`/`S5…` ⇒ nobody; anything else (S14, R, …) ⇒ unknown
@@ -241,13 +251,6 @@ def tokOwner (tok : String) : Option (Option Name) :=
   | "F" :: n :: _ => (parseHex n).map some
   | s :: _ => if s = "S12" || s = "S5" then some none else none
   | _ => none
-
-/-- does `op` (executed in spec state `lat`) make `n` release `svc`? -/
-def releases (lat : Latest) (op : Op) (n : Name) (svc : SvcName) : Bool :=
-  match op with
-  | .close m => m = n
-  | .update m d => m = n && d.name = n && lat.watched n && !(d.services.any (fun s => s.name = svc))
-  | .watch _ => false
 
 structure Verdict where
   viol : Option String := none
@@ -294,15 +297,18 @@ def judgeStep (pr : Probes) (keys : Keys) (names : List Name) (k : Nat) (op : Op
   | .noop => v := v.tag "b=noop"
   | .ok => v := v.tag (match op with | .watch _ => "b=watch" | .close _ => "b=close" | .update _ _ => "b=update")
   if pat'.fault then v := v.addDiff s!"step {k}: model fault flag set"
-  -- services shared right now (after the op)
   let svcs := probeSvcs pr
-  let mut shared := st.shared
-  for so in svcs do
-    match so with
-    | some s => if (listers lat' names s).length > 1 && !shared.contains s then shared := s :: shared
-    | none => pure ()
-  if shared.length > st.shared.length then v := v.tag "b=conflict"
-  let st' : JState := { st with pat := pat', svc := svc', lat := lat', shared := shared }
+  let claims' := (shallowClaims keys (st.claims.step latBefore op)).f
+  if svcs.any (fun so => match so with | some s => (claims' s).length > 1 | none => false) then
+    v := v.tag "b=contested-service"
+  -- a hand-over: the owner of a probed service changes although somebody owned it before and after
+  if svcs.any (fun so => match so with
+      | some s => (match st.claims s, claims' s with
+        | a :: _, b :: _ => a != b
+        | _, _ => false)
+      | none => false) then
+    v := v.tag "b=handover"
+  let st' : JState := { st with pat := pat', svc := svc', lat := lat', claims := claims' }
   -- P probes
   let pImpl := part 1
   if pImpl.length ≠ pr.p.length then v := v.addDiff s!"step {k}: P count"
@@ -371,30 +377,24 @@ def judgeStep (pr : Probes) (keys : Keys) (names : List Name) (k : Nat) (op : Op
       | some (svc, m), some r => if pool r.target then s!"F.{toHex r.target}.{r.ver}.{r.idx}.{toHex (slash :: svc ++ slash :: m)}" else s!"S{codeUnavailable}"
       | _, _ => s!"S{codeUnimplemented}")
   let specs := gSpec ++ hSpec ++ wSpec ++ xSpec
-  let mut owners : List (Option Name) := []
   let mut idx := 0
   for ((so, sp), (model, it)) in (svcs.zip specs).zip (models.zip impls) do
     let core := (it.splitOn "@").headD ""
     if core.startsWith "F." then v := { v with found := v.found + 1 }
-    let accOwners := match so with
-      | some s => acceptableOwners st' names s
-      | none => [none]
-    let acc := accOwners.map sp
-    let mut bad := false
-    if !acc.contains core then
-      bad := true
-      v := v.addViol s!"step {k}: service probe #{idx} impl={core} allowed={acc}"
-    -- the earlier claimant keeps a service it goes on listing
-    let owner := match tokOwner it with | some o => o | none => none
-    match so, st.prevOwners.getD idx none with
-    | some s, some n =>
-      if !releases latBefore op n s && pool n && owner ≠ some n && !bad then
-        v := v.addViol s!"step {k}: service probe #{idx}: {toHex n} owned {toHex s} and did not release it, impl={core}"
-    | _, _ => pure ()
-    if !bad && it ≠ model then v := v.addDiff s!"step {k}: service probe #{idx} model={model} impl={it}"
-    owners := owners ++ [owner]
+    let want := match so with
+      | some s => specOwnerOf lat' claims' s
+      | none => none
+    let spec := sp want
+    if core ≠ spec then
+      let why := match tokOwner core, want with
+        | some none, some r => s!"released-service-unrouted (a live target lists it: {toHex r.target})"
+        | some (some n), some r => if n ≠ r.target then s!"wrong-claimant (earliest live claimant is {toHex r.target})" else "route data not from the claimant's latest description"
+        | some (some _), none => "routed although no live target lists the service"
+        | _, _ => "wrong answer"
+      v := v.addViol s!"step {k}: service probe #{idx}: {why} impl={core} spec={spec}"
+    else if it ≠ model then v := v.addDiff s!"step {k}: service probe #{idx} model={model} impl={it}"
     idx := idx + 1
-  return ({ st' with prevOwners := owners }, v)
+  return (st', v)
 
 def judgeSteps (pr : Probes) (keys : Keys) (names : List Name) : Nat → List Op → List String → JState → Verdict → Verdict
   | _, [], _, _, v => v
